@@ -16,6 +16,8 @@ VERIF = os.path.dirname(HERE)
 if VERIF not in sys.path:
     sys.path.insert(0, VERIF)
 
+os.environ.setdefault("VERIF_SANDBOX_NS", f"p{os.getpid():07d}")
+
 from simkit import repo  # noqa: E402
 
 repo.setup_path()
@@ -141,6 +143,9 @@ def do_check(mod, args, master):
         print(f"[{mod.ID}] violation: oracle={v['oracle']} site={v['site']}\n{v['detail'][:1500]}")
         lines.append(f"VIOLATION property={mod.ID} replay={path}")
         reported = path
+    # a check that explored (almost) nothing must not report "held"
+    if not agg.harness_errors and (agg.evals == 0 or agg.runs == 0 or agg.discarded > 0.6 * max(1, agg.runs) * getattr(mod, "DISCARD_UNITS_PER_RUN", 1)):
+        agg.harness_errors.append((None, f"vacuous batch: runs={agg.runs} evaluations={agg.evals} discarded={agg.discarded}"))
     if agg.harness_errors:
         for i, msg in agg.harness_errors[:3]:
             print(f"HARNESS-ERROR run={i}: {msg}", file=sys.stderr)
@@ -184,6 +189,14 @@ if __name__ == "__main__":
         traceback.print_exc()
         print(f"HARNESS-ERROR: {e!r}", file=sys.stderr)
         rc = runner.EXIT_HARNESS
+    try:
+        from simkit import sandbox
+
+        sandbox.base()
+        if os.environ.get("VERIF_SANDBOX_NS") == f"p{os.getpid():07d}":
+            sandbox.remove_namespace()
+    except Exception:  # noqa: BLE001
+        pass
     sys.stdout.flush()
     sys.stderr.flush()
     os._exit(rc)
